@@ -43,6 +43,12 @@ func (hcb HopCountBlock) IsExceeded() bool {
 
 // Increment the hop counter and returns if the hop limit is exceeded afterwards.
 func (hcb *HopCountBlock) Increment() bool {
+	// The counter is an uint8. A further hop at 255 exceeds every possible limit and
+	// must not wrap around to zero.
+	if hcb.Count == 255 {
+		return true
+	}
+
 	hcb.Count++
 
 	return hcb.IsExceeded()
